@@ -527,6 +527,11 @@ func (p *Parser) evaluateValues(ctx context) (evaluatedValues, error) {
 				return evaluatedValues{}, p.expectedError(fmt.Sprintf(`return value from function "%s"`, funcName), exprToken)
 			}
 		}
+		// A function returning multiple values must be the only value.
+		if returnValuesLength > 1 && len(expressions) > 1 {
+			return evaluatedValues{}, p.expectedError(fmt.Sprintf(`only one return value from function "%s"`, funcName), exprToken)
+		}
+
 		// Check if other values follow.
 		if nextToken.Type() != lexer.COMMA {
 			break
